@@ -67,3 +67,15 @@ package evictions
 //@   ensures #refused: !result || pe.dryRun ==> pe.totalCount == old(pe.totalCount) && (forall n string :: pe.nodepodCount[n] == old(pe.nodepodCount[n])) && (forall ns string :: pe.namespacePodCount[ns] == old(pe.namespacePodCount[ns]))
 //@   ensures #counted: result && !pe.dryRun ==> calls("EvictPod") == 1 && pe.totalCount == old(pe.totalCount) + 1 && (forall ns string :: pe.namespacePodCount[ns] == old(pe.namespacePodCount[ns]) + (ns == pod.ObjectMeta.Namespace ? 1 : 0)) && (forall n string :: pe.nodepodCount[n] == old(pe.nodepodCount[n]) + (n == pod.Spec.NodeName && n != "" ? 1 : 0))
 //@   modifies pe.totalCount, contents(pe.nodepodCount), contents(pe.namespacePodCount)
+
+// "Limit reached" probes of the limiter (C16, limiter half): true exactly when a cap is configured and the stored counter
+// equals it; nil cap = never reached.
+//@ func (*EvictionLimiter).NodeLimitExceeded [C16]
+//@   requires pe != nil && node != nil
+//@   ensures #iff: result <==> (pe.maxPodsToEvictPerNode != nil && pe.nodePodCount[node.ObjectMeta.Name] == deref(pe.maxPodsToEvictPerNode))
+//@   modifies nothing
+
+//@ func (*EvictionLimiter).NamespaceLimitExceeded [C16]
+//@   requires pe != nil
+//@   ensures #iff: result <==> (pe.maxPodsToEvictPerNamespace != nil && pe.namespacePodCount[namespace] == deref(pe.maxPodsToEvictPerNamespace))
+//@   modifies nothing
